@@ -46,6 +46,11 @@ def sup_scenarios(rep, tier, seed):
     for scn in S.extreme_unit_scenarios(random.Random(seed * 1000003 + 407), 100 if thorough else 30, nq=0):
         scn["Q"] = list(scn["I_train"])
         scns.append(scn)
+    # the distance-file workflow (pre_compute_distance -> file -> constructor), resubstitution: tie-free float data, asymmetric
+    # identifiers included (the matrix holds d(x_i, x_j) at row i, column j - both orders are read)
+    for scn in S.prefile_scenarios(random.Random(seed * 1000003 + 408), 120 if thorough else 36, nq=0):
+        scn["Q"] = list(scn["I_train"])
+        scns.append(scn)
     # resubstitution after save -> load into an object built with another metric
     scns += S.reload_scenarios(random.Random(seed * 1000003 + 405), 120 if thorough else 32, resub=True)
     return scns
